@@ -39,7 +39,7 @@ Start_(s) == IF s.tx # None THEN [s |-> s, err |-> FALSE] ELSE Begin(s)
 
 Commit(s) == \* on s.tx; returns [s, err]; handle tx cleared by callers
   LET t == s.txs[s.tx] IN
-  IF t.done THEN [s |-> s, err |-> TRUE]
+  IF t.done THEN [s |-> [s EXCEPT !.log = Append(@, "REFUSED:commit")], err |-> TRUE]       \* (ending a transaction that is over: logged)
   ELSE IF Fail(s) THEN [s |-> [Tick(s) EXCEPT !.txs[s.tx].done = TRUE, !.log = Append(@, "FAIL:commit")], err |-> TRUE]   \* a failed COMMIT ends the transaction without effect
   ELSE IF t.aborted THEN [s |-> [Tick(s) EXCEPT !.txs[s.tx].done = TRUE, !.log = Append(@, "commit->rollback")], err |-> TRUE]
   ELSE [s |-> [Tick(s) EXCEPT !.txs[s.tx].done = TRUE, !.log = Append(@, "commit"),
@@ -47,7 +47,7 @@ Commit(s) == \* on s.tx; returns [s, err]; handle tx cleared by callers
 \* ROLLBACK is a primitive call too: it may fail (connection trouble) - the transaction is over on the server all the same,
 \* and the handle must let go of it (Abort has no result to report the failure with)
 Rollback(s) == LET t == s.txs[s.tx] IN
-  IF t.done THEN s
+  IF t.done THEN [s EXCEPT !.log = Append(@, "REFUSED:rollback")]
   ELSE IF Fail(s) THEN [Tick(s) EXCEPT !.txs[s.tx].done = TRUE, !.log = Append(@, "FAIL:rollback")]
   ELSE [Tick(s) EXCEPT !.txs[s.tx].done = TRUE, !.log = Append(@, "rollback")]
 
@@ -145,6 +145,7 @@ EndedOnceP(gAfter, open) == ~gAfter.inx => open = 0
 \* nothing becomes durable that was never acknowledged: what a fresh handle would read for a key is a value that has at some
 \* point been the acknowledged one (the writes of an explicit transaction count from its successful Stop only)
 NoUnackedDurableP(gAfter, durable) == \A k \in Keys : durable[k] \in gAfter.ever[k]
+NotEndedTwiceP(log) == \A i \in DOMAIN log : log[i] \notin {"REFUSED:commit", "REFUSED:rollback", "REFUSED:exec", "REFUSED:query"}
 \* explicit transaction: Start / Stop / Abort themselves behave (fault-free)
 MultiP(g, op, res, log) ==
   /\ (op.op = "start" /\ ~HasFault(log) /\ ~g.inx) => res = "ok"
